@@ -5,6 +5,8 @@ use std::{
     sync::Arc,
 };
 
+use indexmap::IndexSet;
+
 use crate::common::Identifier;
 
 pub(crate) trait MapView: fmt::Debug {
@@ -255,7 +257,10 @@ impl<V: fmt::Debug + Clone, T: MapView<Value = V> + Clone> MapView for LimitedMa
     }
 
     fn keys(&self) -> Vec<Identifier> {
-        self.1.iter().copied().collect()
+        // the key set is hashed; give it a stable order before it can reach output
+        let mut keys: Vec<Identifier> = self.1.iter().copied().collect();
+        keys.sort_by(|a, b| a.as_str().cmp(b.as_str()));
+        keys
     }
 
     fn iter(&self) -> Vec<(Identifier, Self::Value)> {
@@ -269,15 +274,18 @@ impl<V: fmt::Debug + Clone, T: MapView<Value = V> + Clone> MapView for LimitedMa
 #[derive(Debug)]
 pub(crate) struct MergedMapView<V: fmt::Debug + Clone>(
     pub Vec<Arc<dyn MapView<Value = V>>>,
-    HashSet<Identifier>,
+    // insertion-ordered: the order of `keys()`/`iter()` reaches the output of
+    // `meta.module-variables()` and friends, so it must not depend on hashing
+    IndexSet<Identifier>,
 );
 
 impl<V: fmt::Debug + Clone> MergedMapView<V> {
     pub fn new(maps: Vec<Arc<dyn MapView<Value = V>>>) -> Self {
-        let unique_keys: HashSet<Identifier> = maps.iter().fold(HashSet::new(), |mut keys, map| {
-            keys.extend(&map.keys());
-            keys
-        });
+        let unique_keys: IndexSet<Identifier> =
+            maps.iter().fold(IndexSet::new(), |mut keys, map| {
+                keys.extend(map.keys());
+                keys
+            });
 
         Self(maps, unique_keys)
     }
